@@ -1,0 +1,10 @@
+//go:build verif
+
+package datatype
+
+import bitcask "github.com/XiXi-2024/xixi-kv"
+
+// VerifWrap builds the service on an engine the caller opened (and keeps observing).
+func VerifWrap(db *bitcask.DB) *DataTypeService {
+	return &DataTypeService{db: db}
+}
